@@ -739,10 +739,23 @@ pub fn conway(payload: &[u8]) -> Result<DTx, DecErr> {
     // witness set
     for (k, v) in top[1].as_map()? {
         match k.as_u64()? {
-            1 => tx.native_scripts = v.as_set()?.len(),
-            3 => tx.plutus_v1 = v.as_set()?.iter().map(|n| n.as_bytes().map(|b| b.to_vec())).collect::<Result<_, _>>()?,
-            6 => tx.plutus_v2 = v.as_set()?.iter().map(|n| n.as_bytes().map(|b| b.to_vec())).collect::<Result<_, _>>()?,
-            7 => tx.plutus_v3 = v.as_set()?.iter().map(|n| n.as_bytes().map(|b| b.to_vec())).collect::<Result<_, _>>()?,
+            1 => {
+                let items = v.as_set()?;
+                tx.native_scripts = items.len();
+                dup_check(&items.iter().map(|n| n.span(payload).to_vec()).collect::<Vec<_>>(), "native_scripts", &mut tx.remarks);
+            }
+            3 | 6 | 7 => {
+                let scripts: Vec<Vec<u8>> = v.as_set()?.iter().map(|n| n.as_bytes().map(|b| b.to_vec())).collect::<Result<_, _>>()?;
+                if scripts.is_empty() {
+                    tx.remarks.push("plutus_scripts: empty set".into());
+                }
+                dup_check(&scripts, "plutus_scripts", &mut tx.remarks);
+                match k.as_u64()? {
+                    3 => tx.plutus_v1 = scripts,
+                    6 => tx.plutus_v2 = scripts,
+                    _ => tx.plutus_v3 = scripts,
+                }
+            }
             4 => tx.plutus_data_span = Some((v.start, v.end)),
             5 => {
                 tx.redeemers_span = Some((v.start, v.end));
